@@ -44,8 +44,8 @@ def main():
     V.coverage['rule'] = ('TLC: CMS.tla - every hash function [Items -> [rows -> locations]] (chosen at Init), every update stream of bounded length with weights 0..2: NeverUnder, '
                           'NeverOverTotal, RowSumsAreTotal; the bounded counter for bounds 1..3 and every item stream of length <= 6 (ExactBelowBound, NeverOverCounts, AtMostBoundKeys), '
                           'each stream replayed on the real PrimitiveConstrainedCounter.  Real CountMinSketch objects (depth 1..8, width 1..2^15, numpy seeds, int and string items, '
-                          'add and batch_add) are driven by seeded streams; every update is recorded with the item\'s locations (real cms_hash under the sketch\'s seeds), the real '
-                          'query() of every seen item and of an unseen one, and the row sums, and validated by TraceCMS.tla.  non-trivial = distinct streams in which two items '
+                          'add and batch_add) are driven by seeded streams; every update is recorded with the real '
+                          'query() of every seen item and of an unseen one and the row sums, and validated by TraceCMS.tla against the ghosts truth/total.  non-trivial = distinct streams in which two items '
                           'collide in some row or a weight 0 occurs')
     V.assumptions += ['counts stay far below the int32 range of the sketch matrix']
     CINV = ['NeverUnder', 'NeverOverTotal', 'RowSumsAreTotal']
@@ -149,7 +149,7 @@ def main():
             k, job, evs = todo[hit]
             ev = evs[line - acc - 1] if 0 <= line - acc - 1 < len(evs) else None
             V.violation(f'stream:depth={job["depth"]} width={job["width"]} npseed={job["npseed"]} via={job["via"]}',
-                        f'TraceCMS rejects update #{line - acc - 1} of the stream: {json.dumps(ev)[:300]} (query below true weight / above total / not the row minimum at the update locations / row sum != total)', job)
+                        f'TraceCMS rejects update #{line - acc - 1} of the stream: {json.dumps(ev)[:300]} (query below the true accumulated weight / above the total weight added / a row sum != total)', job)
             todo = todo[hit + 1:]
             if not todo:
                 break
@@ -160,7 +160,7 @@ def main():
         k, job, evs = good[0]
         bad = [dict(e) for e in evs]
         q = [list(x) for x in bad[-1]['queries']]
-        q[0][2] -= 1
+        q[0][1] = -1
         bad[-1] = dict(bad[-1], queries=q)
         if validate([(k, job, bad)]).ok:
             raise E.MachineryError('negative control: under-estimating query accepted')
